@@ -558,9 +558,23 @@ class CE:
             return tuple(self.index(x, env, f) for x in s.elts)
         return self.ev(s, env, f)
 
+    def dunder(self, inst, name):
+        """a special method defined by the repository class of an instance (or None)"""
+        if isinstance(inst, Instance):
+            m = self.prog.find_method(inst.cls, name)
+            if m is not None:
+                return m
+        return None
+
     def truth(self, v):
         if isinstance(v, Mat):
             raise Unsupported("truth value of a matrix")
+        if isinstance(v, Instance):
+            for nm in ("__bool__", "__len__"):
+                m = self.dunder(v, nm)
+                if m is not None:
+                    return bool(self.call_func(m, [v], {}))
+            return True
         return bool(v)
 
     def iterate(self, v):
@@ -570,6 +584,14 @@ class CE:
             return [RowView(v, i) for i in range(len(v.d))]
         if isinstance(v, RowView):
             return list(v.row())
+        if isinstance(v, Instance):
+            it = self.dunder(v, "__iter__")
+            if it is not None:
+                return list(self.iterate(self.call_func(it, [v], {})))
+            gi, ln = self.dunder(v, "__getitem__"), self.dunder(v, "__len__")
+            if gi is not None and ln is not None:
+                return [self.call_func(gi, [v, i], {}) for i in range(self.call_func(ln, [v], {}))]
+            raise Unsupported(f"iteration over an instance of {v.cls.name}")
         if isinstance(v, (list, tuple, range, str, dict, set, frozenset)) or hasattr(v, "__next__"):
             return v
         if type(v).__name__ in ("dict_items", "dict_keys", "dict_values"):
@@ -670,6 +692,8 @@ class CE:
             idx = self.index(e.slice, env, f)
             if isinstance(o, (Mat, RowView)):
                 return o.get(idx)
+            if isinstance(o, Instance) and self.dunder(o, "__getitem__") is not None:
+                return self.call_func(self.dunder(o, "__getitem__"), [o, idx], {})
             if isinstance(o, ExtName):
                 if o.dotted.split(".")[-1] == "Literal":
                     return ("literal", tuple(idx) if isinstance(idx, tuple) else (idx,))
@@ -748,6 +772,10 @@ class CE:
         raise Unsupported("matmul operands")
 
     def cmp(self, op, a, b):
+        if isinstance(op, (ast.In, ast.NotIn)) and isinstance(b, Instance):
+            cm = self.dunder(b, "__contains__")
+            r = self.truth(self.call_func(cm, [b, a], {})) if cm is not None else any(self.cmp(ast.Eq(), x, a) for x in self.iterate(b))
+            return r if isinstance(op, ast.In) else not r
         if isinstance(op, ast.In):
             return a in b
         if isinstance(op, ast.NotIn):
@@ -768,6 +796,9 @@ class CE:
             r = a.zipmap(b, lambda x, y: int(fn(x, y))) if isinstance(a, Mat) else b.map(lambda y: int(fn(a, y)))
             r.is_bool = True
             return r
+        if isinstance(op, (ast.Eq, ast.NotEq)) and isinstance(a, Instance) and self.dunder(a, "__eq__") is not None:
+            r = self.truth(self.call_func(self.dunder(a, "__eq__"), [a, b], {}))
+            return r if isinstance(op, ast.Eq) else not r
         if isinstance(op, (ast.Is, ast.IsNot)) and isinstance(a, ExtName) and isinstance(b, ExtName):
             return (a == b) == isinstance(op, ast.Is)
         fn = CMPOPS.get(type(op))
@@ -968,6 +999,13 @@ class CE:
                 raise Unsupported(f"regular expression method {name} on non-string arguments")
             if isinstance(o, int) and not isinstance(o, bool) and name == "item" and not args:
                 return o
+            # callables of the evaluated program handed to a built-in method (sort(key=...))
+            def _pyc(v):
+                if isinstance(v, (pyfacts.Func, BoundRepo)) or (isinstance(v, tuple) and v and v[0] in ("lambda", "closure")):
+                    return lambda *a: self.apply(v, list(a), {}, e, f)
+                return v
+            args = [_pyc(a) for a in args]
+            kwargs = {k: _pyc(v) for k, v in kwargs.items()}
             for ty, names in allowed.items():
                 if isinstance(o, ty) and name in names:
                     try:
@@ -1091,6 +1129,13 @@ class CE:
             if name in ("map", "filter") and args and not callable(args[0]):
                 fn0 = args[0]
                 args = [lambda *a: self.apply(fn0, list(a), {}, e, f)] + [self.iterate(x) for x in args[1:]]
+            if name == "len" and len(args) == 1 and isinstance(args[0], Instance) and self.dunder(args[0], "__len__") is not None:
+                return self.call_func(self.dunder(args[0], "__len__"), [args[0]], {})
+            if name in ("list", "tuple", "sorted", "sum", "min", "max", "any", "all", "enumerate", "reversed", "set") and args and isinstance(args[0], Instance):
+                args = [self.iterate(args[0])] + list(args[1:])
+            if "key" in kwargs and (isinstance(kwargs["key"], (pyfacts.Func, BoundRepo)) or (isinstance(kwargs["key"], tuple) and kwargs["key"] and kwargs["key"][0] in ("lambda", "closure"))):
+                kf = kwargs["key"]
+                kwargs = dict(kwargs, key=lambda *a: self.apply(kf, list(a), {}, e, f))
             if name in safe:
                 try:
                     return safe[name](*args, **kwargs)
@@ -1219,6 +1264,11 @@ class CE:
             return Mat([[x * y for y in bv] for x in av], 2)
         if name == "arange":
             return Mat(list(range(*args)), 1)
+        if name in ("sqrt", "floor", "ceil") and len(args) == 1 and isinstance(args[0], (int, float)) and not isinstance(args[0], bool):
+            import math
+            if name == "sqrt" and args[0] < 0:
+                return float("nan")
+            return {"sqrt": math.sqrt, "floor": lambda x: float(math.floor(x)), "ceil": lambda x: float(math.ceil(x))}[name](args[0])
         if name == "packbits" and isinstance(args[0], Mat) and args[0].ndim == 1 and kwargs.get("axis") is None:
             bits = [1 if x else 0 for x in args[0].d]
             order = kwargs.get("bitorder", "big")
